@@ -100,6 +100,9 @@ structure PState where
   idx : Option Schema := none
   /-- `fields.idxl` (`none` = no file): complete records, oldest first -/
   log : Option (List ChangeSet) := none
+  /-- some TSM file exists (written by a cache snapshot or by the flush of a clean
+      close; with compactions off it stays, even when every value in it is deleted) -/
+  files : Bool := false
   deriving Repr
 
 /-- `appendToChangesFile` for one Save -/
@@ -142,11 +145,16 @@ def loadMetadataIndex (st : PState) : Option PState :=
 /-- `Engine.Open` + `LoadMetadataIndex` as far as the field set is concerned -/
 def openFields (st : PState) (n : Nat) : Option PState := loadMetadataIndex (loadFields st n)
 
-/-- clean `Shard.Close`: `MeasurementFieldSet.Close` snapshots iff the change log exists -/
+/-- `Engine.WriteSnapshot` / the flush of `Engine.Close`: a non-empty cache is
+    written to a new TSM file (if the cache is empty all values are in files already) -/
+def flushed (st : PState) : PState := { st with files := st.files || !st.data.isEmpty }
+
+/-- clean `Shard.Close`: the cache is flushed, then `MeasurementFieldSet.Close`
+    snapshots iff the change log exists -/
 def closeFields (st : PState) : PState :=
   match st.log with
-  | some _ => writeToFile st
-  | none => st
+  | some _ => writeToFile (flushed st)
+  | none => flushed st
 
 /-- crash points inside `WriteToFile` (hooks `verifPoint` in tsdb/shard.go) -/
 inductive CrashPoint | tmpWritten | renamed | idxRemoved
@@ -159,9 +167,9 @@ def crashInClose (st : PState) (p : CrashPoint) : Option PState :=
   | none => none
   | some _ =>
     match p with
-    | .tmpWritten => if st.mem.isEmpty then none else some st                 -- old idx, full log (+ tmp file, removed on open)
-    | .renamed => if st.mem.isEmpty then none else some { st with idx := some st.mem }   -- new idx, full log
-    | .idxRemoved => if st.mem.isEmpty then some { st with idx := none } else none
+    | .tmpWritten => if st.mem.isEmpty then none else some (flushed st)        -- old idx, full log (+ tmp file, removed on open)
+    | .renamed => if st.mem.isEmpty then none else some { flushed st with idx := some st.mem }   -- new idx, full log
+    | .idxRemoved => if st.mem.isEmpty then some { flushed st with idx := none } else none
 
 /-- the files as a crash at point `p` of a `WriteToFile` during `Engine.Open`
     leaves them (the first time the point is reached): the `WriteToFile` of `load`
@@ -210,11 +218,11 @@ def pWriteCrash (st : PState) (batch : List Point) : Option (PState × ChangeSet
              createdRecord v.created)
 
 /-- `Engine.deleteSeriesRange` returns at once — index, field set and files
-    untouched — when no TSM file overlaps the time range and the cache holds no
-    key.  Modelled as "the engine holds no value at all" (exact unless a TSM file
-    whose every value was deleted is still around; the generated cases keep a
-    sentinel series, so the engine is never empty there). -/
-def dropApplies (st : PState) (m : String) : Bool := st.series.contains m && !st.data.isEmpty
+    untouched — when no TSM file overlaps the (full) time range and the cache holds
+    no key: i.e. when no value is stored and no TSM file exists (a file whose every
+    value was deleted still counts). -/
+def dropApplies (st : PState) (m : String) : Bool :=
+  st.series.contains m && (!st.data.isEmpty || st.files)
 
 /-- `Shard.DeleteMeasurement`: all data and series of `m` go; when the measurement
     existed in the index its field set is removed and the deletion is logged -/
@@ -252,6 +260,8 @@ inductive Op10
   | writeTorn (j : Int) (batch : List Point)
   | dropTorn (j : Int) (m : String)
   | crashInClose (p : CrashPoint)
+  /-- `Engine.WriteSnapshot`: the cache goes to a new TSM file -/
+  | snap
   /-- process kill, then a crash inside the snapshot rewrite of the recovery itself -/
   | crashInOpen (p : CrashPoint)
   /-- two concurrent writers; the model runs them in this order (every step of
@@ -301,6 +311,7 @@ def step10 (st : PState) : Op10 → PState × Step10
     let r1 := pWrite st a
     let r2 := pWrite r1.1 b
     (r2.1, .race a b r1.2 r2.2 (seen r2.1))
+  | .snap => (flushed st, .look (seen (flushed st)))
   | .look => (st, .look (seen st))
 
 def trace10 : PState → List Op10 → List Step10
